@@ -286,7 +286,8 @@ pub fn c18(cx: &Ctx) -> (Vec<Violation>, Cover) {
             RAct::Register { bundle, .. } | RAct::With { bundle, .. } | RAct::WrAdd { bundle, .. } => {
                 bundle.iter().any(|t| t.entity().map(|e| a.ent_alive_at(pre, e) == Some(false)).unwrap_or(false))
             }
-            RAct::EwAdd { ent, .. } | RAct::EwRemove { ent, .. } => a.ent_alive_at(pre, *ent) == Some(false),
+            RAct::EwAdd { ent, .. } => a.ent_alive_at(pre, *ent) == Some(false),
+            RAct::EwRemove { ents, .. } => ents.iter().any(|e| a.ent_alive_at(pre, *e) == Some(false)),
             RAct::Revoke { token } => a.tokens.get(*token).map(|(i, _)| a.sys_alive_at(pre, *i) == Some(false)).unwrap_or(false),
             RAct::With { inst, .. } => a.sys_alive_at(pre, *inst) == Some(false),
             _ => false,
